@@ -316,23 +316,23 @@ End GenericProofs.
 (** the concrete instance *)
 Local Open Scope Z_scope.
 
-Definition spec_c (w : wkind) (m0 : mdl) (rows : list (label * row)) : list (label * out) :=
-  map (fun lr => (fst lr, independent_c w m0 (snd lr))) rows.
+Definition spec_c (ax : tc_axis) (w : wkind) (m0 : mdl) (rows : list (label * row)) : list (label * out) :=
+  map (fun lr => (fst lr, independent_c ax w m0 (snd lr))) rows.
 
 Theorem scan_list_c_spec f w md m0 rows :
   (md = Seq -> sf_copies f = true) -> mode_ok md (length rows) ->
-  scan_list_c f w md m0 rows = spec_c w m0 rows.
+  scan_list_c f w md m0 rows = spec_c (sf_tc_axis f) w m0 rows.
 Proof.
   intros Hc Hok. unfold scan_list_c, spec_c, independent_c.
-  exact (scan_list_equals_independent mdl row label sim out apply_row (work w) view (sf_copies f) md m0 rows Hc Hok).
+  exact (scan_list_equals_independent mdl row label sim out apply_row (work (sf_tc_axis f) w) view (sf_copies f) md m0 rows Hc Hok).
 Qed.
 
 Theorem scan_dict_c_spec f w md m0 rows :
   (md = Seq -> sf_copies f = true) -> mode_ok md (length rows) -> NoDup (map fst rows) ->
-  scan_dict_c f w md m0 rows = spec_c w m0 rows.
+  scan_dict_c f w md m0 rows = spec_c (sf_tc_axis f) w m0 rows.
 Proof.
   intros Hc Hok Hnd. unfold scan_dict_c, spec_c, independent_c.
-  exact (scan_dict_equals_independent mdl row label sim out apply_row (work w) view Z.eqb Z.eqb_eq
+  exact (scan_dict_equals_independent mdl row label sim out apply_row (work (sf_tc_axis f) w) view Z.eqb Z.eqb_eq
            (sf_copies f) md m0 rows Hc Hok Hnd).
 Qed.
 
@@ -350,7 +350,7 @@ Definition stale_rows : list (label * row) := [(0, [(10%N, 1)]); (1, [(10%N, 2)]
 Lemma shared_model_stale (f : scan_facts) :
   sf_copies f = false ->
   map first_flux (scan_dict_c f (WTimeCourse [0; 1]) Seq stale_model stale_rows) = [Some (Num 3); Some (Num 3); Some (Num 3)]
-  /\ map first_flux (spec_c (WTimeCourse [0; 1]) stale_model stale_rows) = [Some (Num 1); Some (Num 2); Some (Num 3)].
+  /\ map first_flux (spec_c (sf_tc_axis f) (WTimeCourse [0; 1]) stale_model stale_rows) = [Some (Num 1); Some (Num 2); Some (Num 3)].
 Proof.
   intros Hf. unfold scan_dict_c. rewrite Hf. split; vm_compute; reflexivity.
 Qed.
@@ -362,9 +362,9 @@ Lemma duplicate_labels_lose_rows :
   length (scan_dict_c f (WTimeCourse [0; 1]) md stale_model rows) = 2%nat.
 Proof.
   intros rows f md Hc Hok. unfold scan_dict_c, scan_dict.
-  assert (Hl : map e_lbl (snd (run mdl row label sim apply_row (work (WTimeCourse [0; 1])) (sf_copies f) md stale_model rows)) = map fst rows)
+  assert (Hl : map e_lbl (snd (run mdl row label sim apply_row (work (sf_tc_axis f) (WTimeCourse [0; 1])) (sf_copies f) md stale_model rows)) = map fst rows)
     by (apply run_labels; assumption).
-  set (es := snd (run mdl row label sim apply_row (work (WTimeCourse [0; 1])) (sf_copies f) md stale_model rows)) in *.
+  set (es := snd (run mdl row label sim apply_row (work (sf_tc_axis f) (WTimeCourse [0; 1])) (sf_copies f) md stale_model rows)) in *.
   destruct es as [|[l1 s1 a1] [|[l2 s2 a2] [|[l3 s3 a3] [|e4 es]]]]; try discriminate Hl.
   cbn in Hl. inversion Hl; subst l1 l2 l3.
   unfold dict_of. cbn [fold_left dict_set e_lbl Z.eqb Pos.eqb].
@@ -372,7 +372,8 @@ Proof.
 Qed.
 
 (** ---- failing rows ---- *)
-Definition axis_of (w : wkind) : list Z := match w with WTimeCourse tps => tps | WSteady => [0] end.
+Definition axis_of (ax : tc_axis) (w : wkind) : list Z :=
+  match w with WTimeCourse tps => tc_placeholder_axis ax tps | WSteady => [0] end.
 Definition integ_of (w : wkind) (m : mdl) (c : cache) : ires :=
   match w with
   | WTimeCourse tps => integrate_tc m c (map snd (ca_ic c)) tps
@@ -381,22 +382,22 @@ Definition integ_of (w : wkind) (m : mdl) (c : cache) : ires :=
 Definition nan_rows (m : mdl) (axis : list Z) : list (Z * list val) :=
   map (fun t => (t, map (fun _ => NaN) (m_vars m))) axis.
 
-Lemma work_failed w m c :
+Lemma work_failed ax w m c :
   create_cache m = Ok c -> (integ_of w m c = IFail \/ integ_of w m c = IZeroDiv) ->
-  work w m = (SOk (nan_rows m (axis_of w)) (ca_base c), m).
+  work ax w m = (SOk (nan_rows m (axis_of ax w)) (ca_base c), m).
 Proof.
   intros Hc Hf. unfold work. rewrite Hc. destruct w as [tps|]; cbn [integ_of axis_of] in *.
   - destruct Hf as [Hf|Hf]; rewrite Hf; reflexivity.
   - destruct Hf as [Hf|Hf]; rewrite Hf; reflexivity.
 Qed.
 
-Lemma work_ok w m c tc :
-  create_cache m = Ok c -> integ_of w m c = IOk tc -> work w m = (SOk tc (ca_base c), m).
+Lemma work_ok ax w m c tc :
+  create_cache m = Ok c -> integ_of w m c = IOk tc -> work ax w m = (SOk tc (ca_base c), m).
 Proof.
   intros Hc Hf. unfold work. rewrite Hc. destruct w as [tps|]; cbn [integ_of] in *; rewrite Hf; reflexivity.
 Qed.
 
-Lemma work_unevaluable w m e : create_cache m = Err e -> work w m = (SCrash e, m).
+Lemma work_unevaluable ax w m e : create_cache m = Err e -> work ax w m = (SCrash e, m).
 Proof. intros Hc. unfold work. rewrite Hc. reflexivity. Qed.
 
 Lemma euler_axis : forall tps m c t y tc, euler m c t y tps = IOk tc -> map fst tc = tps.
@@ -408,9 +409,6 @@ Proof.
     destruct (euler m c t1 _ rest) as [tc'| | |] eqn:E; try discriminate H.
     inversion H; subst. cbn [map fst]. f_equal. exact (IH _ _ _ _ _ E).
 Qed.
-
-Definition starts_at_zero (tps : list Z) : bool :=
-  match tps with t :: _ => Z.eqb t 0 | [] => false end.
 
 Lemma integrate_tc_axis m c y0 tps tc :
   integrate_tc m c y0 tps = IOk tc -> map fst tc = if starts_at_zero tps then tps else 0 :: tps.
@@ -448,39 +446,39 @@ Qed.
 
 (** a failing row of a time-course scan: NaN placeholder; same time axis as a successful row when
     the requested points start at t0 = 0 *)
-Theorem tc_placeholder m c tps :
+Theorem tc_placeholder ax m c tps :
   create_cache m = Ok c ->
   (integ_of (WTimeCourse tps) m c = IFail \/ integ_of (WTimeCourse tps) m c = IZeroDiv) ->
-  exists rv rp, work (WTimeCourse tps) m = (SOk rv rp, m) /\ map fst rv = tps /\
+  exists rv rp, work ax (WTimeCourse tps) m = (SOk rv rp, m) /\ map fst rv = tc_placeholder_axis ax tps /\
     Forall (fun tv => length (snd tv) = length (m_vars m) /\ Forall (fun v => v = NaN) (snd tv)) rv.
 Proof.
-  intros Hc Hf. exists (nan_rows m tps), (ca_base c). split; [exact (work_failed _ _ _ Hc Hf)|].
+  intros Hc Hf. exists (nan_rows m (tc_placeholder_axis ax tps)), (ca_base c). split; [exact (work_failed ax _ _ _ Hc Hf)|].
   apply nan_rows_all_nan.
 Qed.
 
-Theorem tc_success_axis m c tps tc :
+Theorem tc_success_axis ax m c tps tc :
   create_cache m = Ok c -> integ_of (WTimeCourse tps) m c = IOk tc ->
-  work (WTimeCourse tps) m = (SOk tc (ca_base c), m) /\
+  work ax (WTimeCourse tps) m = (SOk tc (ca_base c), m) /\
   map fst tc = if starts_at_zero tps then tps else 0 :: tps.
 Proof.
-  intros Hc Hi. split; [exact (work_ok _ _ _ _ Hc Hi)|]. exact (integrate_tc_axis _ _ _ _ _ Hi).
+  intros Hc Hi. split; [exact (work_ok ax _ _ _ _ Hc Hi)|]. exact (integrate_tc_axis _ _ _ _ _ Hi).
 Qed.
 
-Theorem ss_placeholder m c :
+Theorem ss_placeholder ax m c :
   create_cache m = Ok c ->
   (integ_of WSteady m c = IFail \/ integ_of WSteady m c = IZeroDiv) ->
-  exists rv rp, work WSteady m = (SOk rv rp, m) /\ length rv = 1%nat /\
+  exists rv rp, work ax WSteady m = (SOk rv rp, m) /\ length rv = 1%nat /\
     Forall (fun tv => length (snd tv) = length (m_vars m) /\ Forall (fun v => v = NaN) (snd tv)) rv.
 Proof.
-  intros Hc Hf. exists (nan_rows m [0]), (ca_base c). split; [exact (work_failed _ _ _ Hc Hf)|].
+  intros Hc Hf. exists (nan_rows m [0]), (ca_base c). split; [exact (work_failed ax _ _ _ Hc Hf)|].
   split; [reflexivity|]. apply nan_rows_all_nan.
 Qed.
 
-Theorem ss_success_single m c tc :
+Theorem ss_success_single ax m c tc :
   create_cache m = Ok c -> integ_of WSteady m c = IOk tc ->
-  work WSteady m = (SOk tc (ca_base c), m) /\ length tc = 1%nat.
+  work ax WSteady m = (SOk tc (ca_base c), m) /\ length tc = 1%nat.
 Proof.
-  intros Hc Hi. split; [exact (work_ok _ _ _ _ Hc Hi)|]. exact (steady_single _ _ _ _ _ _ Hi).
+  intros Hc Hi. split; [exact (work_ok ax _ _ _ _ Hc Hi)|]. exact (steady_single _ _ _ _ _ _ Hi).
 Qed.
 
 (** x' = x*x: stays at 0 from 0, leaves the integrator's range from 100 *)
@@ -488,8 +486,8 @@ Definition sq_model (x0 : Z) : mdl := mkM [(10%N, Plain x0)] [] [] [mkR 40%N 5%N
 
 Lemma tc_placeholder_misses_t0 :
   exists rv rp rv' rp',
-    work (WTimeCourse [1; 2]) (sq_model 0) = (SOk rv rp, sq_model 0) /\
-    work (WTimeCourse [1; 2]) (sq_model 100) = (SOk rv' rp', sq_model 100) /\
+    work TcRequested (WTimeCourse [1; 2]) (sq_model 0) = (SOk rv rp, sq_model 0) /\
+    work TcRequested (WTimeCourse [1; 2]) (sq_model 100) = (SOk rv' rp', sq_model 100) /\
     map fst rv = [0; 1; 2] /\ map fst rv' = [1; 2] /\ rv' = nan_rows (sq_model 100) [1; 2].
 Proof. do 4 eexists. repeat split; vm_compute; reflexivity. Qed.
 
@@ -497,9 +495,17 @@ Proof. do 4 eexists. repeat split; vm_compute; reflexivity. Qed.
 Definition guard_model (x0 : Z) : mdl :=
   mkM [(10%N, Plain x0)] [(20%N, Plain 1)] [] [mkR 40%N 7%N [20%N; 10%N] [(10%N, -1)]].
 Lemma unevaluable_row_raises :
-  fst (work (WTimeCourse [0; 1]) (apply_row [(10%N, 0)] (guard_model 2))) = SCrash EZeroDiv
-  /\ independent_c (WTimeCourse [0; 1]) (guard_model 2) [(10%N, 0)] = OCrash EZeroDiv.
-Proof. split; vm_compute; reflexivity. Qed.
+  forall ax, fst (work ax (WTimeCourse [0; 1]) (apply_row [(10%N, 0)] (guard_model 2))) = SCrash EZeroDiv
+  /\ independent_c ax (WTimeCourse [0; 1]) (guard_model 2) [(10%N, 0)] = OCrash EZeroDiv.
+Proof. intros ax. split; vm_compute; reflexivity. Qed.
+
+(** ... and no placeholder could help: whatever data a result carries, viewing it against that row's
+    model ([_compute_args] -> [get_args_time_course] / [get_arg_names] -> [_create_cache]) raises *)
+Lemma unevaluable_row_any_placeholder_view_raises :
+  forall (rv : list (Z * list val)),
+    let m := apply_row [(10%N, 0)] (guard_model 2) in
+    fst (view (SOk rv (plain_of (m_pars m))) m) = OCrash EZeroDiv.
+Proof. intros rv. vm_compute. reflexivity. Qed.
 
 (** ---- the protocol worker's placeholder axis ---- *)
 Section AxesProofs.
@@ -553,57 +559,81 @@ Section AxesProofs.
 End AxesProofs.
 
 (** ---- statements at the regenerated facts ---- *)
-Definition expected_facts : scan_facts := mkScanFacts true true true true true true PhStepGrid.
-
-Theorem list_scan_pinned f : f = expected_facts ->
+Theorem list_scan_pinned f : sf_copies f = true ->
   forall w md m0 rows, mode_ok md (length rows) ->
-    scan_list_c f w md m0 rows = map (fun lr => (fst lr, independent_c w m0 (snd lr))) rows.
-Proof. intros -> w md m0 rows Hok. apply scan_list_c_spec; [reflexivity | exact Hok]. Qed.
+    scan_list_c f w md m0 rows = map (fun lr => (fst lr, independent_c (sf_tc_axis f) w m0 (snd lr))) rows.
+Proof. intros Hf w md m0 rows Hok. apply scan_list_c_spec; [intros _; exact Hf | exact Hok]. Qed.
 
-Theorem dict_scan_pinned f : f = expected_facts ->
+Theorem dict_scan_pinned f : sf_copies f = true ->
   forall w md m0 rows, mode_ok md (length rows) -> NoDup (map fst rows) ->
-    scan_dict_c f w md m0 rows = map (fun lr => (fst lr, independent_c w m0 (snd lr))) rows.
-Proof. intros -> w md m0 rows Hok Hnd. apply scan_dict_c_spec; [reflexivity | exact Hok | exact Hnd]. Qed.
+    scan_dict_c f w md m0 rows = map (fun lr => (fst lr, independent_c (sf_tc_axis f) w m0 (snd lr))) rows.
+Proof. intros Hf w md m0 rows Hok Hnd. apply scan_dict_c_spec; [intros _; exact Hf | exact Hok | exact Hnd]. Qed.
 
-Theorem duplicate_labels_pinned f : f = expected_facts ->
+Theorem duplicate_labels_pinned f : sf_copies f = true ->
   exists w m0 rows, forall md, mode_ok md (length rows) ->
     length (scan_dict_c f w md m0 rows) <> length rows.
 Proof.
-  intros ->. exists (WTimeCourse [0; 1]), stale_model, [(5, [(10%N, 1)]); (7, [(10%N, 2)]); (5, [(10%N, 3)])].
-  intros md Hok. rewrite (duplicate_labels_lose_rows expected_facts md (fun _ => eq_refl) Hok). discriminate.
+  intros Hf. exists (WTimeCourse [0; 1]), stale_model, [(5, [(10%N, 1)]); (7, [(10%N, 2)]); (5, [(10%N, 3)])].
+  intros md Hok. rewrite (duplicate_labels_lose_rows f md (fun _ => Hf) Hok). discriminate.
+Qed.
+
+(** the placeholder has the time axis of a successful row: whenever the requested points start at 0,
+    and ALWAYS once the worker puts the start point in front ([TcWithStart]) *)
+Theorem tc_placeholder_shape_gen ax tps m c tc m' c' :
+  (ax = TcWithStart \/ starts_at_zero tps = true) ->
+  create_cache m = Ok c -> integ_of (WTimeCourse tps) m c = IOk tc ->
+  create_cache m' = Ok c' ->
+  (integ_of (WTimeCourse tps) m' c' = IFail \/ integ_of (WTimeCourse tps) m' c' = IZeroDiv) ->
+  exists rv rp rv' rp',
+    work ax (WTimeCourse tps) m = (SOk rv rp, m) /\ work ax (WTimeCourse tps) m' = (SOk rv' rp', m') /\
+    map fst rv' = map fst rv /\
+    Forall (fun tv => length (snd tv) = length (m_vars m') /\ Forall (fun v => v = NaN) (snd tv)) rv'.
+Proof.
+  intros Hz Hc Hi Hc' Hf.
+  destruct (tc_success_axis ax m c tps tc Hc Hi) as [Hw Hax].
+  destruct (tc_placeholder ax m' c' tps Hc' Hf) as (rv' & rp' & Hw' & Hax' & Hnan).
+  exists tc, (ca_base c), rv', rp'. repeat split; try assumption.
+  rewrite Hax, Hax'. destruct Hz as [-> | Hz].
+  - reflexivity.
+  - rewrite Hz. unfold tc_placeholder_axis. rewrite Hz. destruct ax; reflexivity.
 Qed.
 
 Theorem tc_placeholder_shape tps m c tc m' c' :
+  create_cache m = Ok c -> integ_of (WTimeCourse tps) m c = IOk tc ->
+  create_cache m' = Ok c' ->
+  (integ_of (WTimeCourse tps) m' c' = IFail \/ integ_of (WTimeCourse tps) m' c' = IZeroDiv) ->
+  exists rv rp rv' rp',
+    work TcWithStart (WTimeCourse tps) m = (SOk rv rp, m) /\ work TcWithStart (WTimeCourse tps) m' = (SOk rv' rp', m') /\
+    map fst rv' = map fst rv /\
+    Forall (fun tv => length (snd tv) = length (m_vars m') /\ Forall (fun v => v = NaN) (snd tv)) rv'.
+Proof. apply tc_placeholder_shape_gen. left. reflexivity. Qed.
+
+Theorem tc_placeholder_shape_partial ax tps m c tc m' c' :
   starts_at_zero tps = true ->
   create_cache m = Ok c -> integ_of (WTimeCourse tps) m c = IOk tc ->
   create_cache m' = Ok c' ->
   (integ_of (WTimeCourse tps) m' c' = IFail \/ integ_of (WTimeCourse tps) m' c' = IZeroDiv) ->
   exists rv rp rv' rp',
-    work (WTimeCourse tps) m = (SOk rv rp, m) /\ work (WTimeCourse tps) m' = (SOk rv' rp', m') /\
+    work ax (WTimeCourse tps) m = (SOk rv rp, m) /\ work ax (WTimeCourse tps) m' = (SOk rv' rp', m') /\
     map fst rv' = map fst rv /\
     Forall (fun tv => length (snd tv) = length (m_vars m') /\ Forall (fun v => v = NaN) (snd tv)) rv'.
-Proof.
-  intros Hz Hc Hi Hc' Hf.
-  destruct (tc_success_axis m c tps tc Hc Hi) as [Hw Hax]. rewrite Hz in Hax.
-  destruct (tc_placeholder m' c' tps Hc' Hf) as (rv' & rp' & Hw' & Hax' & Hnan).
-  exists tc, (ca_base c), rv', rp'. repeat split; try assumption. congruence.
-Qed.
+Proof. intros Hz. apply tc_placeholder_shape_gen. right. exact Hz. Qed.
 
-Theorem ss_placeholder_shape m c tc m' c' :
+Theorem ss_placeholder_shape ax m c tc m' c' :
   create_cache m = Ok c -> integ_of WSteady m c = IOk tc ->
   create_cache m' = Ok c' -> (integ_of WSteady m' c' = IFail \/ integ_of WSteady m' c' = IZeroDiv) ->
   exists rv rp rv' rp',
-    work WSteady m = (SOk rv rp, m) /\ work WSteady m' = (SOk rv' rp', m') /\
+    work ax WSteady m = (SOk rv rp, m) /\ work ax WSteady m' = (SOk rv' rp', m') /\
     length rv' = length rv /\
     Forall (fun tv => length (snd tv) = length (m_vars m') /\ Forall (fun v => v = NaN) (snd tv)) rv'.
 Proof.
   intros Hc Hi Hc' Hf.
-  destruct (ss_success_single m c tc Hc Hi) as [Hw Hl].
-  destruct (ss_placeholder m' c' Hc' Hf) as (rv' & rp' & Hw' & Hl' & Hnan).
+  destruct (ss_success_single ax m c tc Hc Hi) as [Hw Hl].
+  destruct (ss_placeholder ax m' c' Hc' Hf) as (rv' & rp' & Hw' & Hl' & Hnan).
   exists tc, (ca_base c), rv', rp'. repeat split; try assumption. congruence.
 Qed.
 
-Theorem protocol_axis_pinned f : f = expected_facts ->
+Theorem protocol_axis_pinned f : sf_protocol_axis f = PhStepGrid ->
   forall (T : Type) (lin : T -> T -> nat -> nat -> T) (zero : T),
     (forall a b n, lin a b n 0%nat = a) ->
     forall tends tpps, tends <> [] ->
@@ -621,12 +651,14 @@ Proof.
 Qed.
 
 (** non-vacuity: three rows, two workers, tasks completing in the order 2, 0, 1 *)
+Definition nonvac_facts : scan_facts :=
+  mkScanFacts true true true true true true PhStepGrid TcWithStart PtcJoined DupRefuse.
 Example nonvacuous_schedule :
   let md := Par 2 [(2, 1); (0, 0); (1, 1)]%nat in
   mode_ok md (length stale_rows) /\ NoDup (map fst stale_rows) /\
-  map first_flux (scan_dict_c expected_facts (WTimeCourse [0; 1]) md stale_model stale_rows)
+  map first_flux (scan_dict_c nonvac_facts (WTimeCourse [0; 1]) md stale_model stale_rows)
     = [Some (Num 1); Some (Num 2); Some (Num 3)] /\
-  map first_flux (scan_dict_c expected_facts (WTimeCourse [0; 1]) Seq stale_model stale_rows)
+  map first_flux (scan_dict_c nonvac_facts (WTimeCourse [0; 1]) Seq stale_model stale_rows)
     = [Some (Num 1); Some (Num 2); Some (Num 3)].
 Proof.
   cbv zeta. split; [|split; [|split]].
